@@ -141,6 +141,7 @@ def systematic_jobs(tier, seed, ctx):
                         {"op": "generate", "src": src, "perm": 0, "faults": [], "recover": True},
                         {"op": "postprocess", "perm": k, "faults": []},
                         {"op": "probe"}]))
+    jobs.append(_job(seed, "sys:locale", ENVS[1], [{"op": "generate", "src": "symplyphysics", "perm": 0, "faults": [], "locale": "ascii"}, {"op": "postprocess", "perm": 0, "faults": []}, {"op": "probe"}]))
     jobs.append(_job(seed, "sys:repeat", ENV0, [{"op": "generate", "src": "symplyphysics/laws/kinematics", "perm": 0, "faults": []}, {"op": "probe"}, {"op": "generate", "src": "symplyphysics/laws/kinematics", "perm": 5, "faults": [], "stale": True}, {"op": "postprocess", "perm": 0, "faults": []}, {"op": "probe"}]))
     return jobs
 
@@ -215,6 +216,12 @@ def generate(seed: int, run: int, tier: str) -> dict:
                 vs = ops[-1]["vseed"]
                 ops.append({"op": "virtual", "vseed": vs, "edit": rng.randrange(1, 10**6), "keep_output": True, "perm": rng.randrange(0, 10**6), "faults": []})
         ops.append({"op": "probe"})
+    if rng.random() < 0.25:
+        # the process runs under a non-UTF-8 locale (LC_ALL=C): files opened without an explicit
+        # encoding would be ASCII
+        for op in ops:
+            if op["op"] in ("generate", "virtual"):
+                op["locale"] = "ascii"
     return _job(seed, run, env, ops)
 
 
@@ -438,7 +445,10 @@ def _run_generation(fs, op, vios, faults_count, probes) -> dict:
             fs.files[name] = fs.files[name] + "\nSTALE-GARBAGE " * 50
         faults_count["stale_output"] += 1
     else:
-        fs.files.clear()
+        fs.wipe()  # like `docs/build.py --wipe-generated`: the output directory itself disappears
+    fs.locale_encoding = op.get("locale", "utf-8")
+    if fs.locale_encoding != "utf-8":
+        faults_count["non_utf8_locale"] = faults_count.get("non_utf8_locale", 0) + 1
     per_page_flag_bad = []
     captured = {}
     orig_law, orig_pkg, orig_print = build._process_law, build._process_law_package, build.print_law  # pylint: disable=protected-access
@@ -752,8 +762,11 @@ def _run_virtual(fs, op, vios, faults, probes, aborted):
     was_pending = aborted["pending"]
     broken = bool(op.get("broken"))
     files, edited = _virtual_tree(int(op["vseed"]), broken=broken, edit_seed=op.get("edit"))
+    fs.locale_encoding = op.get("locale", "utf-8")
+    if fs.locale_encoding != "utf-8":
+        faults["non_utf8_locale"] = faults.get("non_utf8_locale", 0) + 1
     if not op.get("keep_output"):
-        fs.files.clear()
+        fs.wipe()
         fs.mtimes.clear()
     else:
         faults["regenerate_over_old_output"] = faults.get("regenerate_over_old_output", 0) + 1
